@@ -15,6 +15,7 @@ def handle (toks : List String) (impl : String) : Verdict :=
         else if impl = "panic@reencode" then some s!"re-encoding a value decoded by {entry} panicked"
         else if impl = "panic" then some "panicked"
         else if impl = "hang" then some s!"decoding entry point {entry} did not return"
+        else if impl = "skipped-after-hangs" then none
         else match impl.splitOn " " with
           | [v, peak] =>
             match peak.toNat? with
